@@ -140,3 +140,76 @@
 ;@lemma wsum_nil
 (assert (forall ((W (Array Int Int)) (wo Int) (wn Bool) (n Int))
   (! (=> wn (= (wsum W wo wn n) (ite (<= n 0) 0 n))) :pattern ((wsum W wo wn n)))))
+
+; ---------------------------------------------------------------- weighted sums over internal literals (Lit)
+; psum(L, W, A, n) = sum over k < n of wt(W,k) * [tv(A, L[k])]; wt is 1 when W is nil (wn)
+;@sig pterm : int int asg -> int
+(define-fun pterm ((l Int) (w Int) (A (Array Int Bool))) Int (ite (tv A l) w 0))
+;@sig psum : row rowz asg int -> int
+(declare-fun psum ((Array Int Int) Int (Array Int Int) Int Bool (Array Int Bool) Int) Int)
+(assert (forall ((L (Array Int Int)) (lo Int) (W (Array Int Int)) (wo Int) (wn Bool) (A (Array Int Bool)) (n Int))
+  (! (= (psum L lo W wo wn A n)
+        (ite (<= n 0) 0 (+ (psum L lo W wo wn A (- n 1))
+             (pterm (select L (+ lo (- n 1))) (ite wn 1 (select W (+ wo (- n 1)))) A))))
+     :pattern ((psum L lo W wo wn A n)))))
+;@lemma psum_ext
+(assert (forall ((L1 (Array Int Int)) (W1 (Array Int Int)) (L2 (Array Int Int)) (W2 (Array Int Int)) (lo Int) (wo Int) (wn Bool) (A (Array Int Bool)) (n Int))
+  (! (=> (and (forall ((j Int)) (! (=> (and (<= lo j) (< j (+ lo n))) (= (select L1 j) (select L2 j))) :pattern ((select L1 j)) :pattern ((select L2 j))))
+              (or wn (forall ((j Int)) (! (=> (and (<= wo j) (< j (+ wo n))) (= (select W1 j) (select W2 j))) :pattern ((select W1 j)) :pattern ((select W2 j))))))
+         (= (psum L1 lo W1 wo wn A n) (psum L2 lo W2 wo wn A n)))
+     :pattern ((psum L1 lo W1 wo wn A n) (psum L2 lo W2 wo wn A n)))))
+;@lemma psum_update_L
+(assert (forall ((L (Array Int Int)) (j Int) (v Int) (lo Int) (W (Array Int Int)) (wo Int) (wn Bool) (A (Array Int Bool)) (n Int))
+  (! (= (psum (store L j v) lo W wo wn A n)
+        (ite (and (<= lo j) (< j (+ lo n)))
+             (+ (psum L lo W wo wn A n)
+                (- (pterm v (ite wn 1 (select W (+ wo (- j lo)))) A) (pterm (select L j) (ite wn 1 (select W (+ wo (- j lo)))) A)))
+             (psum L lo W wo wn A n)))
+     :pattern ((psum (store L j v) lo W wo wn A n)))))
+;@lemma psum_update_W
+(assert (forall ((L (Array Int Int)) (j Int) (v Int) (lo Int) (W (Array Int Int)) (wo Int) (wn Bool) (A (Array Int Bool)) (n Int))
+  (! (= (psum L lo (store W j v) wo wn A n)
+        (ite (and (not wn) (<= wo j) (< j (+ wo n)))
+             (+ (psum L lo W wo wn A n)
+                (- (pterm (select L (+ lo (- j wo))) v A) (pterm (select L (+ lo (- j wo))) (select W j) A)))
+             (psum L lo W wo wn A n)))
+     :pattern ((psum L lo (store W j v) wo wn A n)))))
+; deleting the zero-weight entry i by shifting the tail left (GtEq): explicit lemma instance
+;@sig lem_psum_delete : row row row row asg int int -> bool
+(declare-fun lem_psum_delete ((Array Int Int) Int (Array Int Int) Int (Array Int Int) Int (Array Int Int) Int (Array Int Bool) Int Int) Bool)
+;@lemma psum_delete
+(assert (forall ((L2 (Array Int Int)) (lo2 Int) (W2 (Array Int Int)) (wo2 Int) (L (Array Int Int)) (lo Int) (W (Array Int Int)) (wo Int) (A (Array Int Bool)) (n Int) (i Int))
+  (! (and (lem_psum_delete L2 lo2 W2 wo2 L lo W wo A n i)
+      (=> (and (<= 0 i) (< i n) (= (select W (+ wo i)) 0)
+               (forall ((j Int)) (! (=> (and (<= lo2 j) (< j (+ lo2 i))) (= (select L2 j) (select L (+ lo (- j lo2))))) :pattern ((select L2 j))))
+               (forall ((j Int)) (! (=> (and (<= wo2 j) (< j (+ wo2 i))) (= (select W2 j) (select W (+ wo (- j wo2))))) :pattern ((select W2 j))))
+               (forall ((j Int)) (! (=> (and (<= (+ lo2 i) j) (< j (+ lo2 (- n 1)))) (= (select L2 j) (select L (+ lo (- j lo2) 1)))) :pattern ((select L2 j))))
+               (forall ((j Int)) (! (=> (and (<= (+ wo2 i) j) (< j (+ wo2 (- n 1)))) (= (select W2 j) (select W (+ wo (- j wo2) 1)))) :pattern ((select W2 j)))))
+          (= (psum L2 lo2 W2 wo2 false A (- n 1)) (psum L lo W wo false A n))))
+     :pattern ((lem_psum_delete L2 lo2 W2 wo2 L lo W wo A n i)))))
+
+; DIMACS integer -> internal literal (specification of IntToLit)
+;@sig ilit : int -> int
+(define-fun ilit ((x Int)) Int (ite (< x 0) (+ (* 2 (- (- x) 1)) 1) (* 2 (- x 1))))
+; converting every literal with IntToLit keeps the weighted sum (explicit lemma instance)
+;@sig lem_isum_psum : row row rowz asg int -> bool
+(declare-fun lem_isum_psum ((Array Int Int) Int (Array Int Int) Int (Array Int Int) Int Bool (Array Int Bool) Int) Bool)
+;@lemma isum_psum
+(assert (forall ((L2 (Array Int Int)) (lo2 Int) (L (Array Int Int)) (lo Int) (W (Array Int Int)) (wo Int) (wn Bool) (A (Array Int Bool)) (n Int))
+  (! (and (lem_isum_psum L2 lo2 L lo W wo wn A n)
+      (=> (forall ((j Int)) (! (=> (and (<= lo2 j) (< j (+ lo2 n))) (and (= (select L2 j) (ilit (select L (+ lo (- j lo2))))) (not (= (select L (+ lo (- j lo2))) 0)))) :pattern ((select L2 j))))
+          (= (psum L2 lo2 W wo wn A n) (isum L lo W wo wn A n))))
+     :pattern ((lem_isum_psum L2 lo2 L lo W wo wn A n)))))
+; explicit weights that are all 1 behave like the nil ("all weights are 1") convention
+;@sig lem_psum_ones : row row asg int -> bool
+(declare-fun lem_psum_ones ((Array Int Int) Int (Array Int Int) Int (Array Int Bool) Int) Bool)
+;@lemma psum_ones
+(assert (forall ((L (Array Int Int)) (lo Int) (W (Array Int Int)) (wo Int) (A (Array Int Bool)) (n Int))
+  (! (and (lem_psum_ones L lo W wo A n)
+      (=> (forall ((j Int)) (! (=> (and (<= wo j) (< j (+ wo n))) (= (select W j) 1)) :pattern ((select W j))))
+          (= (psum L lo W wo false A n) (psum L lo W wo true A n))))
+     :pattern ((lem_psum_ones L lo W wo A n)))))
+;@lemma psum_nilrow
+(assert (forall ((L (Array Int Int)) (lo Int) (W1 (Array Int Int)) (wo1 Int) (W2 (Array Int Int)) (wo2 Int) (A (Array Int Bool)) (n Int))
+  (! (= (psum L lo W1 wo1 true A n) (psum L lo W2 wo2 true A n))
+     :pattern ((psum L lo W1 wo1 true A n) (psum L lo W2 wo2 true A n)))))
